@@ -492,6 +492,7 @@ func (u *Unit) callByContract(st *State, fi *FuncInfo, targs []types.Type, args 
 			if b.K == KBuf {
 				d := u.bufData(st, b)
 				exact["H:"+elemKey(b.Elem)] = Store(u.heap(st, b.Elem), Add(d.Ptr, i.Term), v.Term)
+				u.writeInFrame(st, b.Elem, Add(d.Ptr, i.Term))
 			}
 		}
 	}
